@@ -6,7 +6,7 @@ def run(tier, seed):
     check = common.Check("C17", tier, seed, "model_checking")
     vh = common.build_vh()
     # verdict deviations of C01 that are still live: a wrong verdict is C01's finding, not a wrong location
-    live = schemafam.live_devs(check, vh, "Trace_Schema", common.Known().devs("C01"))
+    live = schemafam.live_devs(check, vh, "Trace_Schema", common.Known().devs("C01"), report=False)
     quick = tier == "quick"
     on_fail = schemafam.simple_violations(check, "errors")
     k = 1 if quick else 25
